@@ -8,6 +8,7 @@
 //! reply streams.  All random choices derive from the single seed.
 
 mod exec;
+mod expr;
 mod gen;
 mod oracle;
 mod util;
